@@ -56,6 +56,7 @@ type cfg struct {
 	switches           map[string]string
 	autovars           map[string]parser.AutoVarCommand
 	fonts              parser.FontConfig
+	nofc               bool // the font config file does not exist (the load fails: same as an empty config, plus a warning)
 }
 
 func atoi(s string) int {
@@ -90,6 +91,8 @@ func parseCfg(h string) *cfg {
 				av.VarNameArgPosition = &p
 			}
 			c.autovars[unhx(f[1])] = av
+		case len(f) == 2 && f[0] == "nofc":
+			c.nofc = f[1] == "1"
 		case len(f) == 2 && f[0] == "fontdefault":
 			c.fonts.DefaultFontID = unhx(f[1])
 		case len(f) == 5 && f[0] == "font":
@@ -171,7 +174,11 @@ func compileCase(f []string) string {
 	if c.lint {
 		p = parser.NewLintParser(lexer.New(src), cc)
 	} else {
-		p = parser.New(lexer.New(src), cc, fontFile(c.fonts), c.deffont, c.maxlen, c.switches)
+		ff := fontFile(c.fonts)
+		if c.nofc {
+			ff = filepath.Join(workDir, "no_such_dir", "font_config.json")
+		}
+		p = parser.New(lexer.New(src), cc, ff, c.deffont, c.maxlen, c.switches)
 	}
 	prog, err := p.ParseProgram()
 	if err != nil {
